@@ -116,9 +116,10 @@ def classify(scn, iout):
         fid = None
         if got[0] == "mismatch" and not su.detect_variant()["D10"] and feat["ndim_disagree"] and all(c in su.NDIM_BY_FIRST_UPDATE for c, _ in feat["ndim_disagree"]):
             fid = "C02-ndim-first-update"
-        elif (got[0] == "mismatch" and feat["dtype_disagree"] and (not feat["ndim_disagree"] or su.detect_variant()["D10"])
+        elif (got[0] == "mismatch" and not su.detect_variant()["DT"] and feat["dtype_disagree"] and (not feat["ndim_disagree"] or su.detect_variant()["D10"])
               and all(c in su.DTYPE_FOLLOWS_DATA and dts == ["float32", "float64"] for c, _, dts in feat["dtype_disagree"])):
-            # Props/C02.v sync_refuted_dtype: a tensor state is float32 on one member and float64 on another
+            # Props/C02.v sync_refuted_dtype: a tensor state is float32 on one member and float64 on another, on a tree
+            # without the dtype negotiation (fixes/sync-dtype.patch; with it: sync_equals_local_merge_any_dtype)
             fid = "C02-state-dtype-follows-data"
         elif got[0] == "exc" and got[1] in ("TypeError", "ValueError") and feat["bcast_root_shifted"] and not su.detect_variant()["D9"]:
             fid = "C02-subgroup-bcast-root"
@@ -159,6 +160,15 @@ GLOO_WITNESSES = [
     {"kind": "toolkit", "W": W, "group": list(range(W)), "dst": None, "entry": "sync_and_compute",
      "members": [[["metric", ck, []]]] + [[["metric", ck, [[_X22, _Z22]] if ck != "Covariance" else [[_X22]]]]] * (W - 1)}
     for W in (2, 3, 4) for ck in ("MeanSquaredErrorRaw", "R2ScoreRaw", "Covariance")]
+_X22D = {"dtype": "float64", "shape": [2, 2], "data": [[1, 2], [3, 4]]}
+_Z22D = {"dtype": "float64", "shape": [2, 2], "data": [[0, 0], [0, 1]]}
+# C02-state-dtype-follows-data witnesses (rank 0 never updated, the others updated with float64 data): they join a
+# real-gloo launch only on a tree with the dtype negotiation (fixes/sync-dtype.patch)
+GLOO_WITNESSES += [
+    {"kind": "toolkit", "W": W, "group": list(range(W)), "dst": None, "entry": "sync_and_compute",
+     "members": [[["metric", ck, []]]] + [[["metric", ck, upd]]] * (W - 1)}
+    for W in (2, 3, 4) for ck, upd in (("Max", [[{"dtype": "float64", "shape": [2], "data": [1, 5]}]]),
+                                       ("MeanSquaredErrorRaw", [[_X22D, _Z22D]]), ("Covariance", [[_X22D]]))]
 
 
 def tie_stream(ctx, count):
